@@ -128,6 +128,12 @@ impl Subscription {
         self.observer.deleted()
     }
 
+    /// Whether the subscription has started removing itself from its topic
+    /// (it is being deleted, or already is).
+    pub fn is_detached(&self) -> bool {
+        self.observer.is_detached()
+    }
+
     /// Returns the info for the subscription.
     pub async fn get_info(&self) -> Result<SubscriptionInfo, GetInfoError> {
         let (responder, recv) = oneshot::channel();
